@@ -318,8 +318,8 @@ def check_snapper(case, ctx):
 
 
 SUBS = [
-    Sub("timing", check_timing, strategy=tempo_case, examples={"quick": 900, "thorough": 6000}, shards={"quick": 8, "thorough": 16}),
-    Sub("snapper", check_snapper, strategy=snapper_case, examples={"quick": 1200, "thorough": 6000}, shards={"quick": 4, "thorough": 16}),
+    Sub("timing", check_timing, strategy=tempo_case, examples={"quick": 1200, "thorough": 6000}, shards={"quick": 12, "thorough": 16}),
+    Sub("snapper", check_snapper, strategy=snapper_case, examples={"quick": 1500, "thorough": 6000}, shards={"quick": 8, "thorough": 16}),
 ]
 
 MANIFEST = dict(
